@@ -27,6 +27,7 @@ def run(ctx):
         dcases = [(prog, '0' * p1 + '1' * w1 + '0000000001' * 60, ('2', '8', 'o')) for prog in DPROGS for p1 in range(60, 420, 4 if ctx.quick() else 1) for w1 in (4, 9, 15)]
         driver = build_model_driver(ctx, 'resizeproto', 'ExtractResizeProto.v', 'resizeproto_driver.ml')
         X.run_cases(ctx, 'released bucket tables are never touched again', ximpl, dcases, proto_driver=driver)
+        X.run_cases(ctx, 'the table itself after cds_lfht_destroy (work-queue thread still inside its resize work item)', ximpl, X.lazy_destroy_cases(ctx), nontrivial=lambda raw: ' free tb' in raw)
     return finish(ctx, trusted=L.TRUSTED + ['C07 partial: "no access after a grace period" is proved for the queue (C12 theorem) with the same ghost-clock device; '
                   'for the table only the single-owner half is a theorem so far'],
                   rule='corpus + parking sweeps + bursty schedules of 2-4 threads all looking up and deleting the same nodes; non-trivial = at least two del calls and contention')
